@@ -70,12 +70,18 @@ func (s Site) Pos(p *Program) token.Position {
 	return p.Position(s.Instr.Pos(), s.Fn)
 }
 
+// Overlay, when set before Load, substitutes file contents (absolute path ->
+// source). Only the mutation sweep (cmd/mutsweep) uses it; registered checks
+// always analyse the working tree as it is on disk.
+var Overlay map[string][]byte
+
 // Load loads /repo (dir) with the given build tags.
 func Load(dir, tags string) *Program {
 	os.Unsetenv("GOWORK")
 	cfg := &packages.Config{
-		Mode: packages.LoadAllSyntax,
-		Dir:  dir,
+		Mode:    packages.LoadAllSyntax,
+		Dir:     dir,
+		Overlay: Overlay,
 		Env: append(os.Environ(), "GOFLAGS=-mod=mod", "GOPROXY=off", "GOSUMDB=off",
 			"GOTOOLCHAIN=local", "GOWORK=off", "GOARCH=amd64", "GOOS=linux", "CGO_ENABLED=0"),
 		Tests: false,
